@@ -14,6 +14,7 @@ for a mutable default overridden by value in a subclass (finding F9).
 -/
 import TraitsVerif.Lemmas.AttrReset
 import TraitsVerif.Lemmas.AttrSource
+import TraitsVerif.Lemmas.AttrSourceTrait
 namespace TraitsVerif.Props.C10
 open TraitsVerif TraitsVerif.Model.Attr
 
@@ -63,6 +64,17 @@ old = Uninitialized; an error exit leaves the default stored. -/
 theorem C10_getattr_is_source (C : IC) (s : OSt) (dn idn : Bool) :
     call C Generated.AttrProg.getattr_trait [.trait, .self, .name] s dn idn = ofPtr (getattrTrait C.E C.t s) :=
   Lemmas.AttrSource.getattr_trait_is_source C s dn idn
+
+open TraitsVerif.Model.MiniC in
+/-- `setattrTrait` is the interpretation of the source of `setattr_trait` on every path (= `C02_setattr_trait_is_source`;
+restated here because `C10_once` / `C10_reset_default` rest on its old-value fetch: on the first assignment to a
+never-read attribute with notifiers or a `post_setattr` hook the default is computed ONCE, STORED, and only then
+`post_setattr`'d — seeded change C10-m12 dropped the store). -/
+theorem C10_setattr_is_source (C : IC) (value : Option Id) (s : OSt) (dn idn : Bool)
+    (hdn : dn = true → s.slot = none) :
+    call C Generated.AttrProg.setattr_trait [.trait, .trait, .self, .name, ofValue value] s dn idn
+      = ofInt (setattrTrait C.E C.t value s) :=
+  Lemmas.AttrSource.setattr_trait_is_source C value s dn idn hdn
 
 /-! ### First read -/
 
